@@ -8,6 +8,9 @@ CONSTANTS
   CtShape = "one3"
   MaxSteps = 0
   Escaping = "asRequired"
+  Catalogue <- CatNone
+  MaxHist = 0
+  DecoderScope = "perIteration"
   CopyVariant = "copy"
 CONSTRAINT ExportC
 INVARIANT RoundTrip
